@@ -77,6 +77,9 @@ class FuncRef:
     raw: bool = False  # the function itself, as handed to its own decorators
     defaults: tuple | None = None  # (positional defaults, keyword-only defaults) evaluated when the def statement ran
 
+    def __hash__(self):
+        return hash((self.fi.fq, id(self.bound)))
+
 
 class Memoised:
     """functools.lru_cache(...)(f) / functools.cache(f) as an object: one stored result per key, in the world of the interpreter."""
@@ -105,8 +108,14 @@ class MemoDecorator:
 class ClassRef:
     ci: ClassInfo
 
+    def __hash__(self):  # a class of the package as a dictionary key / set element
+        return hash((self.ci.module, self.ci.name))
 
-@dataclass
+    def __eq__(self, o):
+        return isinstance(o, ClassRef) and (o.ci.module, o.ci.name) == (self.ci.module, self.ci.name)
+
+
+@dataclass(frozen=True)
 class ExtRef:
     path: str  # dotted, e.g. 'scipp.to_unit'
 
